@@ -177,6 +177,7 @@ func c09History(c *Ctx, cs Case, prop string) {
 	}
 	nEmpty := emptyLists(lists)
 	var goOuts []string
+	appendedEmpty := 0 // signature-less lists handed to AppendList (known finding F20)
 	for i, op := range ops {
 		f := strings.Split(op, ",")
 		before := abs
@@ -209,6 +210,9 @@ func c09History(c *Ctx, cs Case, prop string) {
 				sl := signature.NewSignatureList(guidFromWire(unhx(f[1])))
 				for _, e := range splitSigs(f[2]) {
 					sl.AppendBytes(guidFromWire(e[0]), e[1])
+				}
+				if len(sl.Signatures) == 0 {
+					appendedEmpty++
 				}
 				db.AppendList(sl)
 				class = "ok"
@@ -246,7 +250,9 @@ func c09History(c *Ctx, cs Case, prop string) {
 				}
 				rest.AppendList(l)
 			}
-			if _, ok := specOf(rest.Bytes()); ok && empties > 0 {
+			// ... and every such list was put there by an AppendList of a signature-less list in this
+			// history (an empty list left behind by Append or Remove is a different violation)
+			if _, ok := specOf(rest.Bytes()); ok && empties > 0 && empties == appendedEmpty {
 				matcher = "c07.empty_list_size_zero"
 			}
 			fail(i, "database no longer encodes to a well-formed stream", hx(enc), "Spec.decodeDb = some _", matcher)
